@@ -49,6 +49,18 @@ type tokenWorld struct {
 	// focus: the token whose expiry instant the clock was just moved to; the next focusLeft picks return it
 	focus     *grantedToken
 	focusLeft int
+	// after: set together with focus when the clock was moved to shortly BEFORE a token's end: once the token has been
+	// used there, the clock moves on to the instant `at` (shortly after the end) and the next pick returns the token again
+	after *struct {
+		g  *grantedToken
+		at time.Time
+	}
+	// how the focused token was presented the last time (C15: which of its strings, declared as what), so that the use
+	// after the clock moved presents the very same string; focusWhat: the string whose end the clock was moved to
+	pickedFocus, sameAgain bool
+	lastX                  int
+	lastCaller             string
+	focusWhat              string
 }
 
 func (tw *tokenWorld) site(s string) string { return "router" + tw.w.Router + "/" + s }
@@ -135,9 +147,20 @@ func (tw *tokenWorld) pick(ch *kernel.Chooser, needRefresh bool) *grantedToken {
 	if len(c) == 0 {
 		return nil
 	}
+	if a := tw.after; a != nil && tw.focusLeft == 0 && (!needRefresh || a.g.refresh != "") && slices.Contains(c, a.g) {
+		// the same token again, now shortly after its end
+		tw.after = nil
+		if d := time.Until(a.at); d > 0 {
+			tw.w.Advance(d)
+		}
+		tw.o.Probe("token-used-shortly-before-and-shortly-after-its-end")
+		tw.sameAgain = true
+		return a.g
+	}
 	if f := tw.focus; f != nil && tw.focusLeft > 0 && (!needRefresh || f.refresh != "") && slices.Contains(c, f) {
 		// the clock was just moved to an instant that matters for this token: the next operations use it
 		tw.focusLeft--
+		tw.pickedFocus = true
 		return f
 	}
 	return c[ch.Int(len(c))]
@@ -986,7 +1009,37 @@ func (tw *tokenWorld) exchangeUse(ch *kernel.Chooser) string {
 
 func (tw *tokenWorld) advance(ch *kernel.Chooser) string {
 	var d time.Duration
-	switch ch.Int(5) {
+	switch ch.Int(6) {
+	case 5:
+		// to shortly before the end of a token; the next operation uses that token, then the clock moves to shortly
+		// after its end and the token is used again (whatever the first use made anybody remember is seconds old)
+		if len(tw.pool) == 0 {
+			return "advance: no token"
+		}
+		g := tw.pool[ch.Int(len(tw.pool))]
+		var end time.Time
+		what := "access token"
+		if exp, ok := world.JWTPayload(g.idToken)["exp"].(float64); ok && g.idToken != "" && ch.Bool(1, 2) {
+			end, what = time.Unix(int64(exp), 0), "ID token"
+		} else if id, _, _, ok := tw.w.DecodeAccess(g.access); ok {
+			if t := tw.w.Store.TokenSnapshot(id); t != nil {
+				end = t.Exp
+			}
+		}
+		before := []time.Duration{time.Second, 10 * time.Second, 30 * time.Second, 50 * time.Second}[ch.Int(4)]
+		past := []time.Duration{0, time.Millisecond, time.Second, 5 * time.Second, 20 * time.Second, 45 * time.Second}[ch.Int(6)]
+		if end.IsZero() || time.Until(end) <= before || time.Until(end) > 3*time.Hour {
+			return "advance: no token about to end"
+		}
+		d = time.Until(end) - before
+		tw.w.Advance(d)
+		tw.focus, tw.focusLeft = g, 1
+		tw.focusWhat = what
+		tw.after = &struct {
+			g  *grantedToken
+			at time.Time
+		}{g, end.Add(past)}
+		return fmt.Sprintf("advance clock %v: %v before the end of the %s of %s/%s (to be used now and again %v after its end)", d, before, what, g.client, g.subject, past)
 	case 4:
 		// to the very instant at which a token of the pool ends (its ID token's exp, or the access token's expiry), or a
 		// few hundred milliseconds past it - still inside the second that exp names
@@ -1010,6 +1063,7 @@ func (tw *tokenWorld) advance(ch *kernel.Chooser) string {
 		d = time.Until(end) + delta
 		tw.w.Advance(d)
 		tw.focus, tw.focusLeft = g, 2
+		tw.focusWhat = what
 		tw.o.Probe("clock-at-a-token's-expiry-instant")
 		return fmt.Sprintf("advance clock %v: %v relative to the end of the %s of %s/%s", d, delta, what, g.client, g.subject)
 	case 0:
